@@ -312,13 +312,14 @@ ADDED = {
     "C13": "Also RULE-T (type-level witness of the rule operators, pre-phase), OVL (the convenience overloads forward the context) and CTX-T: on the template arguments of every instantiation, init_nth_reductor<Nr, RC, F> stores "
            "&reduce_value<Nr, RC, F>, which calls reduce_value_impl<RC, F> (including a contextual functor that could "
            "also be called without the context).",
+    "C14": "Also: the lock-step of cursor and value stack (LOCK) and the helper functors' type-level witness (HLP-T).",
     "C15": "Also RULE-T (the functor is stored by value whatever the argument's category / constness; type-level, pre-phase) and IMM-10: rules, terms and nterms own their members in every instantiation (no reference members; witness "
            "with lvalue functors), and the library's own functors move only from rvalues (HLP-T).",
     "C16": "Also: NAMEFILL (every printed name is filled in), OVL (stream-less / option-less overloads hand everything else on unchanged); the name table of the trace is indexed through char_to_idx (CHARIDX), every path of get_current_term that "
            "produces a term announces it exactly once after storing it (TRACE-R), no stateful stream manipulator is inserted "
            "into the caller's stream (EFF-V5).",
     "C17": "Also: REGEXGRAM (the pattern grammar object itself as a reference: terms, nonterminals, rules, functors), NAMEFILL / GAPI2 (tables, constructors), reference summaries of the pattern lexer / character decoding and of the term getters (REGEXFE, TERMAPI).",
-    "C18": "Also: WIDTH over the returned length, TERMAPI / DEFARG for custom_term, BUF, white-space and capacity rules.",
+    "C18": "Also: LEXLOCAL (a fresh lexer object per request), WIDTH over the returned length, TERMAPI / DEFARG for custom_term, BUF, white-space and capacity rules.",
 }
 
 NOT_APPLICABLE = {
